@@ -132,9 +132,9 @@ func render(v ssa.Value, d int) string {
 	}
 	switch v := v.(type) {
 	case *ssa.Parameter:
-		return v.Name()
+		return paramName(v)
 	case *ssa.FreeVar:
-		return "&" + v.Name()
+		return "&" + localName(v.Parent().Parent(), v.Name())
 	case *ssa.Const:
 		return renderConst(v)
 	case *ssa.Global:
@@ -148,7 +148,7 @@ func render(v ssa.Value, d int) string {
 		return v.Name()
 	case *ssa.Alloc:
 		if v.Comment != "" && v.Comment != "complit" && v.Comment != "makeslice" && v.Comment != "varargs" && !strings.HasPrefix(v.Comment, "new") && !strings.Contains(v.Comment, ".") {
-			return "&" + v.Comment
+			return "&" + localName(v.Parent(), v.Comment)
 		}
 		if v.Comment == "makeslice" || v.Comment == "varargs" {
 			return "&" + v.Comment + ordinal(v)
@@ -223,7 +223,7 @@ func render(v ssa.Value, d int) string {
 		return "next(" + render(v.Iter, d+1) + ")"
 	case *ssa.Phi:
 		if v.Comment != "" {
-			return "φ:" + v.Comment
+			return "φ:" + localName(v.Parent(), v.Comment)
 		}
 		var parts []string
 		for _, e := range v.Edges {
